@@ -294,18 +294,17 @@ func (ex *Exec) symBinop(op token.Token, t types.Type, x, y Value, fr *frame) Va
 			return smt.FPCmp("fp.geq", a, b)
 		}
 	case isString(t):
-		a, b := toTerm(x, t), toTerm(y, t)
 		switch op {
 		case token.ADD:
-			return smt.StrConcat(a, b)
+			return strConcat(x, y)
 		case token.LSS:
-			return smt.StrLT(a, b)
+			return strLess(x, y, false)
 		case token.LEQ:
-			return smt.StrLE(a, b)
+			return strLess(x, y, true)
 		case token.GTR:
-			return smt.StrLT(b, a)
+			return strLess(y, x, false)
 		case token.GEQ:
-			return smt.StrLE(b, a)
+			return strLess(y, x, true)
 		}
 	case isBoolean(t):
 		a, b := toTerm(x, t), toTerm(y, t)
@@ -325,6 +324,9 @@ func (ex *Exec) equal(t types.Type, x, y Value, fr *frame) Value {
 	case *types.Basic:
 		if u.Kind() == types.UntypedNil {
 			return true
+		}
+		if u.Info()&types.IsString != 0 {
+			return strEq(x, y)
 		}
 		if isSym(x) || isSym(y) {
 			return smt.Eq(toTerm(x, t), toTerm(y, t))
@@ -525,11 +527,11 @@ func (ex *Exec) conv(dst, src types.Type, x Value) Value {
 				return v
 			case int64: // string(rune)
 				return string(rune(v))
+			case *SymStr:
+				return v
 			case *smt.Term:
-				if v.Sort.K == smt.KStr {
-					return v
-				}
-				return smt.StrFromCode(smt.BVResize(v, 8, false))
+				// string(byte-like): one character
+				return &SymStr{Len: bv8(1), Ch: []*smt.Term{smt.BVResize(v, 8, false)}}
 			case Slice: // []byte or []rune -> string
 				if v.Arr != nil && v.Arr.StrSrc != nil && v.Arr.E == nil && v.Off == 0 {
 					return v.Arr.StrSrc
@@ -569,7 +571,7 @@ func (ex *Exec) conv(dst, src types.Type, x Value) Value {
 						arr.E[i] = &Cell{V: int64(s[i])}
 					}
 					return Slice{Arr: arr, Len: len(s), Cap: len(s)}
-				case *smt.Term:
+				case *SymStr:
 					return Slice{Arr: &Array{StrSrc: s}, Len: -1, Cap: -1}
 				}
 			} else if s, ok := x.(string); ok {
@@ -596,11 +598,11 @@ func (ex *Exec) callBuiltin(b *ssa.Builtin, args []Value, site ssa.CallInstructi
 		switch x := args[0].(type) {
 		case string:
 			return int64(len(x))
-		case *smt.Term:
-			return smt.StrLen(x)
+		case *SymStr:
+			return strLenValue(x)
 		case Slice:
 			if x.Len < 0 {
-				return smt.StrLen(x.Arr.StrSrc.(*smt.Term))
+				return strLenValue(x.Arr.StrSrc.(*SymStr))
 			}
 			return int64(x.Len)
 		case *Map:
